@@ -111,22 +111,20 @@ Proof. exact flush_resets_history. Qed.
 Print Assumptions c36_flush_resets_history.
 
 (* a flush persists exactly the difference: afterwards the row holds the current value of every
-   changed attribute ([exp_...]) and the old value of every unchanged one.  REFUTED in two regions
-   (below); holds everywhere else *)
+   changed attribute ([exp_...], NULL for a deleted one) and the old value of every unchanged one.
+   One defective region remains (a deleted collection attribute, below); the KeyError after
+   [del a.x] was repaired in f879cdb and that guard clause is gone *)
 Theorem c36_flush_persists_current_guarded : forall s, wf s -> flush_guard s = true ->
   exists s', flush s = (s', Done (RDb (exp_x s) (exp_b s) (db_c s'))) /\
              db_x s' = exp_x s /\ db_b s' = exp_b s /\ same_set (db_c s') (exp_c s).
 Proof. exact flush_persists_guarded. Qed.
 Print Assumptions c36_flush_persists_current_guarded.
 
-(* defect 1: loaded object, [del a.x] (history ((), (), [5])), flush raises KeyError *)
-Theorem c36_flush_persists_current_refuted_del_scalar :
-  let s := fst (run KList [DelX] (init OLoaded 5 1 [1; 2])) in
-  wf s /\ hist_x s = ([], [], [5]) /\ snd (flush s) = Fail KeyError.
-Proof. exact flush_after_del_raises. Qed.
-Print Assumptions c36_flush_persists_current_refuted_del_scalar.
+Theorem c36_flush_never_raises : forall s, failed (snd (flush s)) = false.
+Proof. exact flush_never_fails. Qed.
+Print Assumptions c36_flush_never_raises.
 
-(* defect 2: loaded collection [c1; c2], [del a.cs]: the attribute reads as empty, the history is
+(* still a defect: loaded collection [c1; c2], [del a.cs]: the attribute reads as empty, the history is
    blank and the flush leaves both rows attached *)
 Theorem c36_flush_persists_current_refuted_del_collection :
   let s := fst (run KList [CDel] (init OLoaded 5 1 [1; 2])) in
@@ -135,23 +133,15 @@ Theorem c36_flush_persists_current_refuted_del_collection :
 Proof. exact flush_after_coll_del_keeps_rows. Qed.
 Print Assumptions c36_flush_persists_current_refuted_del_collection.
 
-(* an operation that raises must leave the reported changes alone.  REFUTED for [del a.x] on an
-   attribute without a value (_modified_event runs before the AttributeError) *)
-Theorem c36_failed_delete_changes_history_refuted :
-  let s := init ONew 0 0 [] in
-  wf s /\ coll_deleted s = false /\
-  snd (step KList DelX s) = Fail AttributeError /\
-  hist_x s = blank /\ hist_x (fst (step KList DelX s)) = ([0], [], []) /\
-  modified (fst (step KList DelX s)) = true.
-Proof. exact failed_del_changes_history. Qed.
-Print Assumptions c36_failed_delete_changes_history_refuted.
-
-Theorem c36_failed_op_keeps_history_guarded : forall k o s s' e,
-  wf s -> step k o s = (s', Fail e) -> o <> DelX -> coll_deleted s = false ->
+(* an operation that raises leaves the reported changes alone - for EVERY operation and state
+   (the [del a.x] exception was repaired in 09dadee; with b1144f3 a failing list.remove fires no
+   event any more, so the deleted-collection guard is not needed either) *)
+Theorem c36_failed_op_keeps_history : forall k o s s' e,
+  wf s -> step k o s = (s', Fail e) ->
   changes (hist_x s') = changes (hist_x s) /\ changes (hist_b s') = changes (hist_b s) /\
   changes (hist_c s') = changes (hist_c s).
 Proof. exact failed_op_keeps_changes. Qed.
-Print Assumptions c36_failed_op_keeps_history_guarded.
+Print Assumptions c36_failed_op_keeps_history.
 
 (* totality: the "unreachable" result of the model is never produced *)
 Theorem c36_model_total : forall k ops s, wf s ->
@@ -192,5 +182,15 @@ Example c36_ex_dict_first_mutation :
   hist_c (fst (run KDict [CClear] s0)) = ([], [], [1; 2]) /\
   snd (flush (fst (run KDict [CPop 1] s0))) = Done (RDb 5 1 [2]).
 Proof. vm_compute. repeat split; reflexivity. Qed.
+(* formerly refuted, now positive: a failed [del a.x] changes nothing; flush after [del a.x] writes NULL *)
+Example c36_ex_failed_delete_keeps_state :
+  let s := init ONew 0 0 [] in
+  wf s /\ step KList DelX s = (s, Fail AttributeError) /\
+  hist_x (fst (step KList DelX s)) = blank /\ modified (fst (step KList DelX s)) = false.
+Proof. exact failed_del_keeps_state. Qed.
+Example c36_ex_flush_after_del_persists_null :
+  let s := fst (run KList [DelX] (init OLoaded 5 1 [1; 2])) in
+  wf s /\ hist_x s = ([], [], [5]) /\ snd (flush s) = Done (RDb 0 1 [1; 2]).
+Proof. exact flush_after_del_persists_null. Qed.
 Example c36_ex_failed_op : snd (step KList (CRem 3) (init OLoaded 5 1 [1; 2])) = Fail ValueError.
 Proof. vm_compute. reflexivity. Qed.
